@@ -759,7 +759,11 @@ def gen_c06(rng):
                                    ("M-Backspace", "killbword"), ("C-w", "killbbig"), ("M-d", "killfword")])
             cmds.append(Cmd([key], tag))
         elif r < 0.50:
-            cmds.append(Cmd(["C-y"], "yank"))
+            if rng.random() < 0.25:
+                k = rng.choice([2, 3])
+                cmds.append(Cmd(["M-%d" % k, "C-y"], "yank", n=k))      # (finding K2 is repaired: all copies are replaced)
+            else:
+                cmds.append(Cmd(["C-y"], "yank"))
             k = rng.choice([0, 0, 1, 2, 3])
             for _ in range(k):
                 cmds.append(Cmd(["M-y"], "yankpop"))
@@ -849,7 +853,7 @@ def eval_c06(res, traces, stream):
                         fail_case(res, stream, t, "yank with an empty ring changed the text")
                     last = "other"
                     continue
-                ins = ring[ptr]
+                ins = ring[ptr] * cmd.arg.get("n", 1)
                 if last == "kill":
                     stats["yank_after_kill"] += 1
                 exp = b1[:pos] + ins + b1[pos:]
